@@ -1,8 +1,578 @@
-//! C01 — not implemented yet.
+//! C01 / C13 — FEEL core expressions evaluate to the value the semantics assigns; evaluation
+//! leaves the caller's scope untouched.
+//!
+//! Expression *text* is generated from a typed grammar of the core fragment, parsed by the
+//! real parser against a generated scope, evaluated by the real evaluator, and the parsed
+//! tree together with the scope is sent to the Lean model (`Dmn.Eval.eval`).
 
-use crate::report::Report;
+use crate::model::Model;
+use crate::report::{Kind, Report};
+use crate::rng::Rng;
+use crate::sexp::Sexp;
+use crate::util::guarded;
+use crate::vals::{ast_sexp, value_sexp};
 use crate::Cfg;
+use dmntk_feel::context::FeelContext;
+use dmntk_feel::values::Value;
+use dmntk_feel::{AstNode, Name, Scope};
+use serde_json::json;
+use std::collections::BTreeSet;
 
-pub fn run(_cfg: &Cfg) -> Report {
-  Report::new("C01", "not implemented")
+#[derive(Clone, Copy, PartialEq, Eq, Debug)]
+pub enum K {
+  Num,
+  Str,
+  Bool,
+  List,
+  CtxList,
+  Ctx,
+  Any,
+}
+
+#[derive(Clone)]
+pub struct Vars {
+  pub vars: Vec<(String, K)>,
+}
+
+impl Vars {
+  fn of(&self, k: K) -> Vec<&str> {
+    self.vars.iter().filter(|(_, x)| *x == k).map(|(n, _)| n.as_str()).collect()
+  }
+  fn with(&self, n: &str, k: K) -> Vars {
+    let mut v = self.clone();
+    v.vars.retain(|(m, _)| m != n);
+    v.vars.push((n.to_string(), k));
+    v
+  }
+}
+
+pub struct Gen<'a> {
+  pub rng: &'a mut Rng,
+  pub fresh: u32,
+}
+
+impl<'a> Gen<'a> {
+  fn var(&mut self, base: &str) -> String {
+    self.fresh += 1;
+    format!("{}{}", base, self.fresh % 3)
+  }
+  fn pick_var(&mut self, vars: &Vars, k: K) -> Option<String> {
+    let c = vars.of(k);
+    if c.is_empty() {
+      None
+    } else {
+      Some(self.rng.pick(&c).to_string())
+    }
+  }
+  pub fn num(&mut self, d: u32, vars: &Vars) -> String {
+    let leaf = d == 0 || self.rng.chance(1, 4);
+    if leaf {
+      return match self.rng.below(6) {
+        0 | 1 => self.pick_var(vars, K::Num).unwrap_or_else(|| "1".into()),
+        2 => format!("{}", self.rng.below(12)),
+        3 => format!("{}.{}", self.rng.below(5), self.rng.below(100)),
+        4 => "0".into(),
+        _ => format!("{}", self.rng.range(-3, 40)),
+      };
+    }
+    match self.rng.below(13) {
+      0 => format!("({} + {})", self.num(d - 1, vars), self.num(d - 1, vars)),
+      1 => format!("({} - {})", self.num(d - 1, vars), self.num(d - 1, vars)),
+      2 => format!("({} * {})", self.num(d - 1, vars), self.num(d - 1, vars)),
+      3 => format!("(-{})", self.num(d - 1, vars)),
+      4 => format!("(if {} then {} else {})", self.boolean(d - 1, vars), self.num(d - 1, vars), self.num(d - 1, vars)),
+      5 => format!("{}[{}]", self.list(d - 1, vars), self.rng.range(-3, 4)),
+      6 => format!("{}.a", self.ctx(d - 1, vars)),
+      7 => {
+        let x = self.var("p");
+        format!("(function({}) {})({})", x, self.num(d - 1, &vars.with(&x, K::Num)), self.num(d - 1, vars))
+      }
+      8 => {
+        let x = self.var("p");
+        let y = self.var("q");
+        let inner = vars.with(&x, K::Num).with(&y, K::Num);
+        format!("(function({}, {}) {})({}: {}, {}: {})", x, y, self.num(d - 1, &inner), y, self.num(d - 1, vars), x, self.num(d - 1, vars))
+      }
+      9 => format!("({} / {})", self.num(d - 1, vars), self.rng.pick(&["2", "4", "5", "8", "10", "0.5", "0"])),
+      10 => format!("{{a: {}, b: a + 1}}.b", self.num(d - 1, vars)),
+      11 => format!("{}[{}]", self.list(d - 1, vars), self.num(d - 1, vars)),
+      _ => format!("({})", self.num(d - 1, vars)),
+    }
+  }
+  pub fn string(&mut self, d: u32, vars: &Vars) -> String {
+    if d == 0 || self.rng.chance(1, 2) {
+      return match self.rng.below(4) {
+        0 => self.pick_var(vars, K::Str).unwrap_or_else(|| "\"a\"".into()),
+        1 => "\"\"".into(),
+        2 => "\"b\"".into(),
+        _ => "\"ab\"".into(),
+      };
+    }
+    match self.rng.below(3) {
+      0 => format!("({} + {})", self.string(d - 1, vars), self.string(d - 1, vars)),
+      1 => format!("(if {} then {} else {})", self.boolean(d - 1, vars), self.string(d - 1, vars), self.string(d - 1, vars)),
+      _ => format!("{{a: {}}}.a", self.string(d - 1, vars)),
+    }
+  }
+  pub fn boolean(&mut self, d: u32, vars: &Vars) -> String {
+    if d == 0 || self.rng.chance(1, 5) {
+      return match self.rng.below(5) {
+        0 => self.pick_var(vars, K::Bool).unwrap_or_else(|| "true".into()),
+        1 => "true".into(),
+        2 => "false".into(),
+        3 => "null".into(),
+        _ => format!("{} < {}", self.num(0, vars), self.num(0, vars)),
+      };
+    }
+    match self.rng.below(16) {
+      0 => format!("({} and {})", self.boolean(d - 1, vars), self.boolean(d - 1, vars)),
+      1 => format!("({} or {})", self.boolean(d - 1, vars), self.boolean(d - 1, vars)),
+      2 => {
+        let op = *self.rng.pick(&["<", "<=", ">", ">=", "=", "!="]);
+        format!("({} {} {})", self.num(d - 1, vars), op, self.num(d - 1, vars))
+      }
+      3 => {
+        let op = *self.rng.pick(&["<", "<=", ">", ">=", "=", "!="]);
+        format!("({} {} {})", self.string(d - 1, vars), op, self.string(d - 1, vars))
+      }
+      4 => format!("({} between {} and {})", self.num(d - 1, vars), self.num(d - 1, vars), self.num(d - 1, vars)),
+      5 => {
+        let (l, r) = *self.rng.pick(&[("[", "]"), ("(", "]"), ("[", ")"), ("(", ")")]);
+        format!("({} in {}{}..{}{})", self.num(d - 1, vars), l, self.num(d - 1, vars), self.num(d - 1, vars), r)
+      }
+      6 => format!("({} in {})", self.num(d - 1, vars), self.list(d - 1, vars)),
+      7 => {
+        let x = self.var("x");
+        format!("(some {} in {} satisfies {})", x, self.list(d - 1, vars), self.boolean(d - 1, &vars.with(&x, K::Num)))
+      }
+      8 => {
+        let x = self.var("x");
+        format!("(every {} in {} satisfies {})", x, self.list(d - 1, vars), self.boolean(d - 1, &vars.with(&x, K::Num)))
+      }
+      9 => {
+        let x = self.var("x");
+        let y = self.var("y");
+        let inner = vars.with(&x, K::Num).with(&y, K::Num);
+        let q = *self.rng.pick(&["some", "every"]);
+        format!("({} {} in {}, {} in {} satisfies {})", q, x, self.list(d - 1, vars), y, self.list(d - 1, vars), self.boolean(d - 1, &inner))
+      }
+      10 => {
+        let t = *self.rng.pick(&["number", "string", "boolean", "list<number>", "context<a: number>", "Any", "Null", "function<number>->number", "range<number>"]);
+        format!("({} instance of {})", self.any(d - 1, vars), t)
+      }
+      11 => format!("({} = {})", self.any(d - 1, vars), self.any(d - 1, vars)),
+      12 => format!("(if {} then {} else {})", self.boolean(d - 1, vars), self.boolean(d - 1, vars), self.boolean(d - 1, vars)),
+      13 => format!("({} in ({}, {}))", self.num(d - 1, vars), self.num(d - 1, vars), self.num(d - 1, vars)),
+      14 => format!("({} in (< {}, > {}))", self.num(d - 1, vars), self.num(d - 1, vars), self.num(d - 1, vars)),
+      _ => format!("({} = {})", self.list(d - 1, vars), self.list(d - 1, vars)),
+    }
+  }
+  pub fn list(&mut self, d: u32, vars: &Vars) -> String {
+    if d == 0 || self.rng.chance(1, 4) {
+      return match self.rng.below(6) {
+        0 | 1 => self.pick_var(vars, K::List).unwrap_or_else(|| "[1,2,3]".into()),
+        2 => "[]".into(),
+        3 => format!("[{}]", self.num(0, vars)),
+        4 => format!("[{}, {}, {}]", self.num(0, vars), self.num(0, vars), self.num(0, vars)),
+        _ => "[3, 1, 2, 1]".into(),
+      };
+    }
+    match self.rng.below(12) {
+      0 => {
+        let n = self.rng.below(4);
+        let items: Vec<String> = (0..n).map(|_| self.num(d - 1, vars)).collect();
+        format!("[{}]", items.join(", "))
+      }
+      1 => {
+        let x = self.var("x");
+        format!("(for {} in {} return {})", x, self.list(d - 1, vars), self.num(d - 1, &vars.with(&x, K::Num)))
+      }
+      2 => {
+        let x = self.var("x");
+        let y = self.var("y");
+        let inner = vars.with(&x, K::Num).with(&y, K::Num);
+        format!("(for {} in {}, {} in {} return {})", x, self.list(d - 1, vars), y, self.list(d - 1, vars), self.num(d - 1, &inner))
+      }
+      3 => {
+        let i = self.var("i");
+        format!("(for {} in {}..{} return {})", i, self.rng.range(-2, 4), self.rng.range(-2, 4), self.num(d - 1, &vars.with(&i, K::Num)))
+      }
+      4 => {
+        let i = self.var("i");
+        let x = self.var("x");
+        let inner = vars.with(&i, K::Num).with(&x, K::Num);
+        if self.rng.chance(1, 2) {
+          format!("(for {} in {}..{}, {} in {} return {})", i, self.rng.range(0, 3), self.rng.range(0, 3), x, self.list(d - 1, vars), self.num(d - 1, &inner))
+        } else {
+          format!("(for {} in {}, {} in {}..{} return {})", x, self.list(d - 1, vars), i, self.rng.range(0, 3), self.rng.range(0, 3), self.num(d - 1, &inner))
+        }
+      }
+      5 => format!("{}[{}]", self.list(d - 1, vars), self.boolean(d - 1, &vars.with("item", K::Num))),
+      6 => {
+        let x = self.var("x");
+        format!("(for {} in {} return count-free-{}-free)", x, self.list(d - 1, vars), x).replace("count-free-", "").replace("-free", "")
+      }
+      7 => {
+        let x = self.var("x");
+        // `partial` is bound to the results so far
+        format!("(for {} in {} return if {} then {} else {})", x, self.list(d - 1, vars), self.boolean(d - 1, &vars.with(&x, K::Num)), x, "partial[-1]")
+      }
+      8 => format!("{}.a", self.ctx_list(d - 1, vars)),
+      9 => format!("(if {} then {} else {})", self.boolean(d - 1, vars), self.list(d - 1, vars), self.list(d - 1, vars)),
+      10 => format!("[{}, {}]", self.list(d - 1, vars), self.num(d - 1, vars)),
+      _ => format!("{}[item > {}]", self.list(d - 1, vars), self.num(d - 1, vars)),
+    }
+  }
+  pub fn ctx_list(&mut self, d: u32, vars: &Vars) -> String {
+    if d == 0 || self.rng.chance(1, 3) {
+      return self.pick_var(vars, K::CtxList).unwrap_or_else(|| "[{a: 1, b: 2}, {a: 3, b: 4}]".into());
+    }
+    match self.rng.below(4) {
+      0 => format!("[{}, {}]", self.ctx(d - 1, vars), self.ctx(d - 1, vars)),
+      1 => format!("{}[a > {}]", self.ctx_list(d - 1, vars), self.num(d - 1, vars)),
+      2 => {
+        let x = self.var("x");
+        format!("(for {} in {} return {{a: {}, b: {}}})", x, self.list(d - 1, vars), x, self.num(d - 1, &vars.with(&x, K::Num)))
+      }
+      _ => format!("{}[b = {}]", self.ctx_list(d - 1, vars), self.num(d - 1, vars)),
+    }
+  }
+  pub fn ctx(&mut self, d: u32, vars: &Vars) -> String {
+    if d == 0 || self.rng.chance(1, 3) {
+      return match self.rng.below(3) {
+        0 => self.pick_var(vars, K::Ctx).unwrap_or_else(|| "{a: 1}".into()),
+        1 => "{a: 1, b: 2}".into(),
+        _ => "{}".into(),
+      };
+    }
+    match self.rng.below(5) {
+      0 => format!("{{a: {}, b: {}}}", self.num(d - 1, vars), self.num(d - 1, &vars.with("a", K::Num))),
+      1 => format!("{{a: {}, c: {{a: a + 1}}}}", self.num(d - 1, vars)),
+      2 => format!("{{b: {}, a: {}}}", self.any(d - 1, vars), self.num(d - 1, &vars.with("b", K::Any))),
+      3 => format!("{}[{}]", self.ctx_list(d - 1, vars), self.rng.range(-2, 3)),
+      _ => format!("{{\"a\": {}, f: function(x) x + a, r: f({})}}", self.num(d - 1, vars), self.num(d - 1, vars)),
+    }
+  }
+  pub fn any(&mut self, d: u32, vars: &Vars) -> String {
+    match self.rng.below(9) {
+      0 => self.num(d, vars),
+      1 => self.string(d, vars),
+      2 => self.boolean(d, vars),
+      3 => self.list(d, vars),
+      4 => self.ctx(d, vars),
+      5 => "null".into(),
+      6 => self.ctx_list(d, vars),
+      7 => self.pick_var(vars, K::Any).unwrap_or_else(|| "null".into()),
+      _ => {
+        // ill-typed on purpose: the error paths
+        let a = self.any(d.saturating_sub(1), vars);
+        let b = self.any(d.saturating_sub(1), vars);
+        let op = *self.rng.pick(&["+", "-", "*", "/", "<", "and", "or", "="]);
+        format!("({} {} {})", a, op, b)
+      }
+    }
+  }
+}
+
+/// The scope the generated expressions are parsed and evaluated in.
+pub fn base_scope() -> (Scope, Vars, Vec<FeelContext>) {
+  let empty = Scope::default();
+  let ev = |t: &str| crate::c09::eval_text(&empty, t);
+  let mut bottom = FeelContext::default();
+  let mut top = FeelContext::default();
+  let binds: Vec<(&str, K, &str, bool)> = vec![
+    ("n1", K::Num, "2", false),
+    ("n2", K::Num, "10", true),
+    ("nz", K::Num, "0", true),
+    ("s1", K::Str, "\"a\"", true),
+    ("b1", K::Bool, "true", false),
+    ("l1", K::List, "[1, 2, 3]", false),
+    ("l0", K::List, "[]", true),
+    ("l2", K::List, "[5]", true),
+    ("lc", K::CtxList, "[{a: 1, b: 2}, {a: 2, b: 4}, {a: 3, b: 2}]", true),
+    ("li", K::CtxList, "[{a: 1, item: 7}, {a: 9, item: 1}]", true),
+    ("c1", K::Ctx, "{a: 5, b: \"x\"}", true),
+    ("nn", K::Any, "null", true),
+    ("n1", K::Num, "3", true), // shadows the bottom binding
+  ];
+  let mut vars = Vars { vars: vec![] };
+  for (n, k, t, in_top) in binds {
+    let v = ev(t);
+    if in_top {
+      top.set_entry(&Name::from(n), v);
+    } else {
+      bottom.set_entry(&Name::from(n), v);
+    }
+    vars = vars.with(n, k);
+  }
+  let scope = Scope::new();
+  scope.push(bottom.clone());
+  scope.push(top.clone());
+  (scope, vars, vec![bottom, top])
+}
+
+fn ast_kind(n: &AstNode) -> String {
+  let s = format!("{:?}", n);
+  s.split(|c| c == '(' || c == ' ' || c == '{').next().unwrap_or("").to_string()
+}
+
+fn children(n: &Sexp, out: &mut Vec<(String, String)>, depth: usize, max_depth: &mut usize) {
+  if depth > *max_depth {
+    *max_depth = depth;
+  }
+  if let Sexp::List(xs) = n {
+    if let Some(Sexp::Atom(tag)) = xs.first() {
+      for c in &xs[1..] {
+        if let Sexp::List(ys) = c {
+          if let Some(Sexp::Atom(ctag)) = ys.first() {
+            if ctag != "s" {
+              out.push((tag.clone(), ctag.clone()));
+              children(c, out, depth + 1, max_depth);
+            }
+          }
+        }
+      }
+    }
+  }
+}
+
+pub fn scope_sexp(ctxs: &[FeelContext]) -> Option<String> {
+  let mut parts = vec![];
+  for c in ctxs {
+    parts.push(value_sexp(&Value::Context(c.clone()))?.to_string());
+  }
+  Some(format!("({})", parts.join(" ")))
+}
+
+pub struct Case {
+  pub text: String,
+  pub request: String,
+  pub implementation: String,
+  pub nontrivial: bool,
+  pub pairs: Vec<(String, String)>,
+}
+
+/// Parses and evaluates `text` in (a fresh copy of) the base scope; returns the request line
+/// for the model and the canonical implementation answer.
+pub fn run_case(text: &str, ctxs: &[FeelContext], fuel: u32) -> Option<Case> {
+  let scope = Scope::new();
+  for c in ctxs {
+    scope.push(c.clone());
+  }
+  let before = scope.to_string();
+  let node = match guarded(|| dmntk_feel_parser::parse_expression(&scope, text, false)) {
+    Ok(Ok(n)) => n,
+    _ => return None,
+  };
+  let after_parse = scope.to_string();
+  let ast = ast_sexp(&node);
+  let mut pairs = vec![];
+  let mut max_depth = 0;
+  children(&ast, &mut pairs, 1, &mut max_depth);
+  let implementation = match guarded(|| dmntk_feel_evaluator::evaluate(&scope, &node)) {
+    Ok(Ok(v)) => match value_sexp(&v) {
+      Some(s) => {
+        let after = scope.to_string();
+        format!("(ok {} {})", s, if after == before && after_parse == before { "same" } else { "changed" })
+      }
+      None => "(unencodable)".to_string(),
+    },
+    Ok(Err(_)) => "(builderror)".to_string(),
+    Err(m) => format!("(panic {})", Sexp::str(&m)),
+  };
+  let _ = ast_kind;
+  Some(Case {
+    text: text.to_string(),
+    request: format!("(c01 eval {} {} {})", fuel, ast, scope_sexp(ctxs)?),
+    implementation,
+    nontrivial: max_depth >= 3,
+    pairs,
+  })
+}
+
+pub fn corpus() -> Vec<&'static str> {
+  vec![
+    "for x in [], y in [1,2] return y",
+    "for i in 1..2, x in [\"a\",\"b\"] return [i, x]",
+    "for x in [1,2], y in [3,4] return x * y",
+    "some x in [], y in [1] satisfies true",
+    "every x in [], y in [1] satisfies false",
+    "[1,2,3,4,5,6][item = 4]",
+    "[1,2,3][item > 2]",
+    "[1,2,3,4,5,6,7,8,9,10,11,12][5 + 5]",
+    "[1,2,3][1.0]",
+    "[1,2,3][-1]",
+    "[1,2,3][0]",
+    "{a: 1, b: a + 1, c: b * 2}",
+    "{f: function(x) x + 1, r: f(2)}.r",
+    "(function(a, b) a - b)(b: 1, a: 5)",
+    "for x in [1,2,3] return if x = 1 then 1 else partial[-1] * x",
+    "lc[b = 2].a",
+    "li[item = 1]",
+    "{a: 1}.b",
+    "1 in [1..2]",
+    "null = 1",
+    "if null then 1 else 2",
+    "for x in [1,2], x in [3,4] return x",
+    "for i in 3..1 return i",
+    "[[1,2],[3]][1][2]",
+    "1 / 0",
+    "n1 + nz",
+    "{n1: 100, r: n1}.r",
+    "(function(n1) n1 + n2)(1)",
+  ]
+}
+
+pub fn run_with(cfg: &Cfg, property: &str) -> Report {
+  let mut rep = Report::new(
+    property,
+    "FEEL expression text generated from a typed grammar of the core fragment (arithmetic, comparison, and/or, if, between, in, lists, contexts, paths, filters, for/some/every with one and several variables over lists and ranges, function definition and positional/named invocation, instance of, ill-typed operands), depth ≤ 3 (quick) / ≤ 5 (thorough), parsed by the real parser in a two-context scope (with shadowing) that binds numbers, strings, booleans, nulls, lists, lists of contexts and contexts; a minimised corpus runs first. Non-trivial: the syntax tree has nesting depth ≥ 3; distinct by request line. Cases the exact-arithmetic model cannot compute (non-terminating division, results over 34 digits, built-in calls) are counted as `skipped_unsupported`.",
+  );
+  let (_, vars, ctxs) = base_scope();
+  let mut rng = Rng::new(cfg.seed);
+  let thorough = cfg.tier == "thorough";
+  let n_random = if thorough { 300_000 } else { 25_000 };
+  let max_depth = if thorough { 5 } else { 3 };
+  let mut texts: Vec<String> = corpus().iter().map(|s| s.to_string()).collect();
+  {
+    let mut g = Gen { rng: &mut rng, fresh: 0 };
+    for i in 0..n_random {
+      let d = 1 + (i as u32 % max_depth);
+      texts.push(g.any(d, &vars));
+    }
+  }
+  let mut model = Model::start(&cfg.driver);
+  let mut pair_cov: BTreeSet<(String, String)> = BTreeSet::new();
+  let mut cases = vec![];
+  let mut unparsable = 0u64;
+  for t in &texts {
+    match run_case(t, &ctxs, 8) {
+      Some(c) => cases.push(c),
+      None => unparsable += 1,
+    }
+  }
+  let reqs: Vec<String> = cases.iter().map(|c| c.request.clone()).collect();
+  let answers = model.ask_batch(&reqs);
+  let mut skipped = 0u64;
+  for (c, both) in cases.iter().zip(answers.iter()) {
+    // the driver answers `(<model> <spec>)`
+    let (ans, spec, why) = match Sexp::parse(both).as_ref().and_then(|x| x.as_list()) {
+      Some([m, d]) => (m.to_string(), d.to_string(), String::new()),
+      Some([m, d, w]) => (m.to_string(), d.to_string(), w.to_string()),
+      _ => (both.clone(), both.clone(), String::new()),
+    };
+    let ans = &ans;
+    if ans == "(unsupported)" || spec == "(unsupported)" {
+      skipped += 1;
+      rep.hit("skipped:unsupported");
+      continue;
+    }
+    rep.case(&c.request, c.nontrivial);
+    for p in &c.pairs {
+      pair_cov.insert(p.clone());
+    }
+    let kind = c.implementation.split(' ').next().unwrap_or("").trim_start_matches('(').trim_end_matches(')').to_string();
+    rep.hit(&format!("outcome:{}", kind));
+    // ---- C13 on the implementation alone: scope untouched
+    if c.implementation.ends_with(" changed)") {
+      rep.disagree(Kind::ImplVsSpec, "scope_preserved", "evaluation or parsing changed the caller's scope", &c.text, &c.implementation, "scope unchanged");
+    }
+    if c.implementation.starts_with("(panic") {
+      rep.disagree(Kind::ImplVsSpec, "no_panic", &format!("panic while evaluating: {}", panic_site(&c.implementation)), &c.text, &c.implementation, "a value");
+    }
+    if &c.implementation != ans {
+      let sig = if ans.starts_with("(error") { "driver-error" } else { "evaluation differs from model" };
+      rep.disagree(Kind::ImplVsModel, "eval", sig, &c.text, &c.implementation, ans);
+    }
+    // ---- the property: the value the FEEL semantics assigns
+    if property == "C01" && c.implementation != spec && !c.implementation.starts_with("(panic") {
+      rep.disagree(Kind::ImplVsSpec, "eval_eq_den", &spec_signature(c, &why), &c.text, &c.implementation, &spec);
+    }
+    if rep.samples.len() < 10 && c.nontrivial && c.text.len() < 90 && c.implementation.len() < 120 && !c.implementation.contains("null") {
+      rep.sample(json!({"text": c.text, "implementation": c.implementation, "model": ans, "spec": spec}));
+    }
+  }
+  // repeated evaluation of prepared evaluators in random order (C13, second clause)
+  let mut repeat_failures = 0u64;
+  {
+    let scope = Scope::new();
+    for c in &ctxs {
+      scope.push(c.clone());
+    }
+    let mut prepared = vec![];
+    for t in texts.iter().take(400) {
+      if let Ok(Ok(node)) = guarded(|| dmntk_feel_parser::parse_expression(&scope, t, false)) {
+        if let Ok(Ok(ev)) = guarded(|| dmntk_feel_evaluator::prepare(&node)) {
+          if let Ok(first) = guarded(|| ev(&scope)) {
+            prepared.push((t.clone(), ev, first));
+          }
+        }
+      }
+    }
+    let rounds = if thorough { 20_000 } else { 3_000 };
+    for _ in 0..rounds {
+      if prepared.is_empty() {
+        break;
+      }
+      let i = rng.below(prepared.len() as u64) as usize;
+      let (t, ev, first) = &prepared[i];
+      let again = guarded(|| ev(&scope)).unwrap_or(Value::Null(None));
+      rep.evaluations += 1;
+      let same = value_sexp(&again).map(|s| s.to_string()) == value_sexp(first).map(|s| s.to_string());
+      if !same {
+        repeat_failures += 1;
+        rep.disagree(Kind::ImplVsSpec, "repeat_eval", "repeated evaluation of a prepared expression gives a different value", t, &again.to_string(), &first.to_string());
+      }
+    }
+  }
+  rep.extra.insert("unparsable_generated".into(), json!(unparsable));
+  rep.extra.insert("skipped_unsupported".into(), json!(skipped));
+  rep.extra.insert("construct_pairs_covered".into(), json!(pair_cov.len()));
+  rep.extra.insert("repeat_failures".into(), json!(repeat_failures));
+  rep.model_requests = model.requests;
+  rep
+}
+
+fn panic_site(implementation: &str) -> String {
+  // the message is a code-point list; decode the first 60 characters for the signature
+  if let Some(Sexp::List(xs)) = Sexp::parse(implementation) {
+    if let Some(Sexp::List(cs)) = xs.get(1) {
+      let s: String = cs.iter().skip(1).filter_map(|c| c.as_atom().and_then(|a| a.parse::<u32>().ok()).and_then(char::from_u32)).collect();
+      let cleaned: String = s.chars().map(|c| if c.is_ascii_digit() { '#' } else { c }).take(60).collect();
+      return cleaned;
+    }
+  }
+  "unknown".into()
+}
+
+/// Which deviation of the code from the semantics is responsible (the driver tells by
+/// evaluating intermediate variants): a stable signature.
+fn spec_signature(c: &Case, why: &str) -> String {
+  let quant = c.request.contains("(quantifiedContexts ") && !c.request.contains("(iterationContexts ");
+  let mut parts = vec![];
+  if why.contains("order") {
+    parts.push("for over range and list variables does not iterate in declaration order (ranges are always innermost)");
+  }
+  if why.contains("empty-domain") {
+    parts.push(if quant {
+      "some/every over several variables: an empty domain does not empty the cartesian product"
+    } else {
+      "for (or some/every) over several variables: an empty domain does not empty the cartesian product"
+    });
+  }
+  if why.contains("shadowing") {
+    parts.push("two iteration variables of the same name: the outer one is visible in the body instead of the inner one");
+  }
+  if why.contains("index") {
+    parts.push("filter with a numeric index: an integral index whose exponent is not 0 (1.0, or 10 computed as 5 + 5) selects nothing");
+  }
+  if parts.is_empty() {
+    "value differs from the FEEL semantics".into()
+  } else {
+    parts.join("; ")
+  }
+}
+
+pub fn run(cfg: &Cfg) -> Report {
+  run_with(cfg, "C01")
 }
